@@ -1026,7 +1026,7 @@ def shrink(t, budget=400):
             budget -= 1
             if budget <= 0:
                 break
-            if size(cand) < size(best) and oracle(cand, run_impl(cand)):
+            if size(cand) < size(best) and sanitize(cand) == cand and oracle(cand, run_impl(cand)):
                 best = cand
                 progress = True
                 break
